@@ -595,6 +595,11 @@ class Program:
                 return v
         fnp = fn.path + ("#" + body.tag if body.tag else "")
         if isinstance(callee, str):
+            perm = getattr(self, "_arg_perm", None)
+            if perm:
+                pm = perm.get(generic_path(callee))
+                if pm is not None and len(pm) == len(args):
+                    args = tuple(args[j] for j in pm)      # a role function with reordered parameters: canonical slot order
             m = model_std_ctor(fnp, b, callee, args, fr)
             if m is not None:
                 return m
